@@ -257,7 +257,7 @@ def run(ctx):
         res, mo = run_both(ctx, [case], model_bin, scratch)
         report(ctx, examine(ctx, [case], res, mo), model_bin, scratch)
         return
-    n = ctx.pick(400, 4000)
+    n = ctx.pick(600, 5000)
     cases = [dict(K1_CASE, id=0)]
     cases += [gen_hist(ctx.rng, i + 1) for i in range(n)]
     if not ctx.quick:
